@@ -35,3 +35,11 @@ Theorem C03_armed_stops : forall fs, armed fs = true ->
   expected_cmds fs = flat_map frame_cmd fs ++ [PMotion StopAll].
 Proof. intros fs H. unfold expected_cmds. rewrite H. reflexivity. Qed.
 Print Assumptions C03_armed_stops.
+
+(* the premise of abstracting from time in this property's model: the code it models waits, polls and gives up
+   exactly where the model says (primitive codes in Proofs/W_*.v); re-extracted from the source on every run *)
+Require Import GV.Gen.Consts GV.Proofs.W_server GV.Proofs.W_protocol.
+Theorem C03_time_abstraction : waits_server = (@cons Z 10%Z (@nil Z)) /\ waits_protocol = (@nil Z).
+Proof. exact (conj w_server w_protocol). Qed.
+Check C03_time_abstraction : waits_server = (@cons Z 10%Z (@nil Z)) /\ waits_protocol = (@nil Z).
+Print Assumptions C03_time_abstraction.
